@@ -431,6 +431,11 @@ func checkCli(c CliCase) error {
 		given[n] = true
 	}
 	args := []string{"prune"}
+	for _, n := range c.Names {
+		if c.Mode == "args" && strings.HasPrefix(n, "-") {
+			c.Mode = "file" // a name like "-0" cannot be typed as a bare argument
+		}
+	}
 	switch c.Mode {
 	case "args":
 		args = append(args, c.Names...)
@@ -454,6 +459,25 @@ func checkCli(c CliCase) error {
 			comp += n
 		}
 		comp += ");\n"
+		if len(other) >= 4 && len(c.Names)%2 == 1 {
+			// a compared tree with labelled inner nodes, as a taxonomy has: the labels are names of
+			// tips of the input tree that the compared tree does NOT have as tips
+			var lab []string
+			for _, n := range c.Names {
+				if n != "zz_absent" && !strings.HasPrefix(n, "zx") {
+					lab = append(lab, n)
+				}
+			}
+			comp = "((" + other[0] + "," + other[1] + ")"
+			if len(lab) > 0 {
+				comp += lab[0]
+			}
+			comp += ",(" + strings.Join(other[2:], ",") + ")"
+			if len(lab) > 1 {
+				comp += lab[1]
+			}
+			comp += ");\n"
+		}
 		args = append(args, "-c", cli.Write(dir, "comp.nw", comp))
 	}
 	if c.Mode == "random" {
